@@ -447,24 +447,30 @@ func shortcutsC09(c *Ctx, tt *tokenTable, rule string) {
 						}
 					}
 				}
-				// denotation of the result
-				got := "fallthrough"
-				if len(rets) == 1 {
-					v := r.get(rets[0].Results[0])
+				// denotation of each reachable return
+				denote := func(rt *ssa.Return) string {
+					v := r.get(rt.Results[0])
 					switch {
 					case v.sym == "L":
-						got = lk
 						if lk == "x" {
-							got = "L"
+							return "L"
 						}
+						return lk
 					case v.sym == "R":
-						got = rk
 						if rk == "x" {
-							got = "R"
+							return "R"
 						}
-					default:
-						got = describeBoolLit(p, rets[0].Results[0])
+						return rk
 					}
+					return describeBoolLit(p, rt.Results[0])
+				}
+				got := "fallthrough"
+				var gots []string
+				if len(rets) >= 1 && len(rets) <= 3 {
+					for _, rt := range rets {
+						gots = append(gots, denote(rt))
+					}
+					got = gots[0]
 				}
 				// expected denotation
 				want := "fallthrough"
@@ -497,6 +503,8 @@ func shortcutsC09(c *Ctx, tt *tokenTable, rule string) {
 					} else {
 						c.Bad(rule, key, f.Pos(), "a literal on one side is not folded: expected "+want)
 					}
+				} else if len(gots) > 0 && allAcceptable(gots, want, lk, rk) {
+					c.OK(rule, key, f.Pos(), fmt.Sprintf("yields %v", gots))
 				} else if got != want {
 					c.Bad(rule, key, f.Pos(), fmt.Sprintf("yields %s, the truth table needs %s (T/F = literal, L/R = the other operand)", got, want))
 				} else {
@@ -550,4 +558,19 @@ func operandTypes(p *Program, e ast.Expr) string {
 		return true
 	})
 	return lt + "," + rt
+}
+
+// allAcceptable: every short-cut return denotes want; a value derived from an
+// operand (a copy, an unwrapped form: "?") is accepted where an operand is wanted.
+func allAcceptable(gots []string, want, lk, rk string) bool {
+	for _, g := range gots {
+		if g == want {
+			continue
+		}
+		if g == "?" && (want == "L" || want == "R" || want == lk || want == rk) {
+			continue
+		}
+		return false
+	}
+	return true
 }
